@@ -247,7 +247,9 @@ class PlaceEngine(object):
             for _ in range(t.draw_small(4, 0.5)):
                 members = [vs[t.draw(len(vs))]
                            for _ in range([1, 2, 2, 3, 4, 0][t.draw_small(6, 0.8)])]
-                out.append(cons.SameChipConstraint(members))
+                # (the group as a list, a tuple or a set)
+                shape = [list, list, list, tuple, set, frozenset][t.draw(6)]
+                out.append(cons.SameChipConstraint(shape(members)))
                 g.same_chip.append(members)
                 w.probe("same_chip_group")
                 gid = object()
